@@ -50,8 +50,9 @@ TimeListsTk == {<<>>, <<0, 0>>, <<2, 0 - 2>>, <<0, 1, 0>>}
 ListsTkQ == {<<1, 3>>, <<2, 4>>, <<3, 2, 5>>}
 EvListsTkQ == {<<1, 2>>, <<2, 1, 2>>}
 TimeListsTkQ == {<<>>, <<0, 0>>, <<0, 1, 0>>}
-OpsTkQ == {"EmNew", "TcNew", "TlFromTc", "TrkIndex", "Mutate"}
-ListsTfQ == {<<>>, <<1, 2>>, <<4, 2, 1>>, <<1, 3>>}
+\* no Mutate: the replay finds aliasing by writing through every handle in every state anyway
+OpsTkQ == {"EmNew", "TcNew", "TlFromTc", "TrkIndex"}
+ListsTfQ == {<<>>, <<1, 2>>, <<4, 2, 1>>}
 TimeListsTfQ == {<<>>, <<0, 1, 3>>}
 TlListsTfQ == {<<1>>, <<1, 2>>, <<2, 1, 2>>}
 OpsTfQ == {"TrkNew", "TlNew", "TlSave", "TlLoad", "TrkLoad", "TrkSave"}
